@@ -361,7 +361,7 @@ def build_cli(case):
     g1 = gfile('g1.txt', case['n'], E(case))
     if fam == 'iso':
         argv = ['iso'] + g1 + ['-e'] + gfile('g2.txt', case['n2'], E(case, 'E2'))
-        if 'nontrivial' in case:
+        if case.get('nontrivial'):
             raise Unsupported()
     elif fam == 'auto':
         argv = ['iso'] + g1
